@@ -116,10 +116,37 @@ def rule_r4(chk, facts):
                    '%s runs inside the pass loop or regardless of errors: values of an earlier pass are reported' % cn)
 
 
+def rule_r5(chk, facts):
+    chk.rule('C19-R5', 'the debug (MAP/NoICE/Atmel) writers format addresses and symbol values in a fixed radix: no function '
+             'reachable from DumpDebugInfo() that writes the debug file reads the listing radix ListRadixBase, and every '
+             'StrSym() call there passes a constant radix (the MAP file has no radix marker; its line:address entries '
+             'are hexadecimal)', min_instances=3)
+    P = facts.program('asl')
+    root = facts.func('asmdebug.c', 'DumpDebugInfo')
+    n = 0
+    for f in sorted(P.closure([root]), key=lambda x: x.qname):
+        if not (f.name.startswith('PrintDeb') or f.name.startswith('DumpDebugInfo') or f.name.startswith('PrintNoI') or f.name.startswith('PrNoI')):
+            continue
+        n += 1
+        rd = [(ln) for (k, ln, nd, b, i) in P.reads(f) if k.split(':')[-1] == 'ListRadixBase']
+        bad = None
+        for b, i, ln, c in f.calls('StrSym'):
+            if len(c[2]) >= 4 and const_val(c[2][3]) is None:
+                bad = (ln, show(c[2][3]))
+        ok = not rd and bad is None
+        chk.ob('C19-R5', '%s:%s:fixed-radix' % (f.unit.name, f.name), ok, f.loc(rd[0] if rd else (bad[0] if bad else None)),
+               'fixed radix' if ok else
+               'the debug output is formatted with %s: with -LISTRADIX the symbol values in the MAP file are no longer the '
+               'hexadecimal values the rest of the file uses' % ('ListRadixBase' if rd else bad[1]))
+    if n < 3:
+        raise AnalysisBroken('debug info writers not found')
+
+
 def run(chk, facts, info):
     rule_r1(chk, facts)
     rule_r2(chk, facts)
     rule_r3(chk, facts)
     rule_r4(chk, facts)
+    rule_r5(chk, facts)
     chk.note('Decided: byte-swap parity of the listing, arguments and position of the debug/use-list bookkeeping, listing '
              'after code production, reports after the last pass. Not decided: rendered listing/MAP/share text.')
